@@ -18,6 +18,26 @@ def main():
     assert sh(["git", "-C", "/repo", "status", "--porcelain"]).stdout.strip() == "", "/repo has uncommitted changes"
     props = sorted(json.loads(l)["id"] for l in open(os.path.join(VERIF, "properties.jsonl")))
     rows = []
+    # evidence/ and replays/ describe runs against the unchanged tree: keep them out of these runs
+    import shutil, tempfile
+    keep = tempfile.mkdtemp(prefix="verif_seeded_keep_")
+    for sub in ("evidence", "replays"):
+        if os.path.isdir(os.path.join(VERIF, sub)):
+            shutil.copytree(os.path.join(VERIF, sub), os.path.join(keep, sub))
+    try:
+        rows = run_all(a, props)
+    finally:
+        for sub in ("evidence", "replays"):
+            if os.path.isdir(os.path.join(keep, sub)):
+                shutil.rmtree(os.path.join(VERIF, sub), ignore_errors=True)
+                shutil.copytree(os.path.join(keep, sub), os.path.join(VERIF, sub))
+        shutil.rmtree(keep, ignore_errors=True)
+    for r in rows:
+        print("%-10s breaks %-4s own check: %-60s others alarmed: %s" % r)
+
+
+def run_all(a, props):
+    rows = []
     for d in sorted(glob.glob(os.path.join(VERIF, "seeded", "*"))):
         sid = os.path.basename(d)
         if a.ids and sid not in a.ids:
@@ -38,8 +58,7 @@ def main():
         finally:
             sh(["git", "-C", "/repo", "checkout", "--", "."])
         rows.append((sid, meta["property"], res.get(meta["property"]), {k: v for k, v in res.items() if k != meta["property"] and not v.startswith("exit 0")}))
-    for r in rows:
-        print("%-10s breaks %-4s own check: %-60s others alarmed: %s" % r)
+    return rows
 
 
 if __name__ == "__main__":
